@@ -10,9 +10,10 @@ inside `fn next`, read from the source on every run) is 0; native stack use itse
 child-process runs, not proved.
 -/
 import EspadaVerif.Props.C02
+import EspadaVerif.Lemmas.IterCorollaries
 
 namespace EspadaVerif.C08
-open EspadaVerif Spec C02
+open EspadaVerif Spec C02 EspadaVerif.IterLemmas
 
 variable {W : Type}
 
@@ -22,22 +23,40 @@ theorem C08_total (ops : WOps W) (flop : List Card) (ranges : List (List (Combo 
     (h : WfInput flop ranges) (hs : ValidScope a b) :
     ∃ s₀ : IterState W, (mkEvaluator flop ranges a b).intoIter = .ok s₀ ∧
       ∀ limit, ∃ sds s', drainFuel ops limit s₀ [] = .ok (sds, s') := by
-  sorry
+  obtain ⟨s₀, h0, sds, sEnd, hdrain, _, _⟩ := C02_refines ops flop ranges a b h hs
+  refine ⟨s₀, h0, fun limit => ?_⟩
+  have hbig := hdrain (limit + (sds.length + 1)) (by omega)
+  obtain ⟨⟨sds', s'⟩, hr⟩ := drainFuel_ok_le ops s₀ [] (sds.length + 1) limit _ hbig
+  exact ⟨sds', s', hr⟩
 
+-- `hs` is not needed: an empty range ends the enumeration whatever the scope
+set_option linter.unusedVariables false in
 /-- **C08 (empty range).** A player with an empty range simply makes the enumeration empty. -/
 theorem C08_empty (ops : WOps W) (flop : List Card) (ranges : List (List (Combo × W))) (a b : Nat × Nat)
     (h : WfInput flop ranges) (hs : ValidScope a b) (hempty : [] ∈ ranges) :
     ∃ s₀ : IterState W, (mkEvaluator flop ranges a b).intoIter = .ok s₀ ∧
       ∀ limit, drainFuel ops (limit + 1) s₀ [] = .ok ([], s₀) := by
-  sorry
+  have hf : WfFlop flop := ⟨h.flop_len, h.flop_nodup, h.flop_valid⟩
+  refine ⟨_, intoIter_eq flop ranges a b hf, fun limit => ?_⟩
+  have hdone := step_empty ops flop ranges b a (List.replicate ranges.length 0) ⟨[], hempty, rfl⟩
+  have hnext := next_done ops _ hdone
+  simp only [drainFuel, hnext, List.reverse_nil]
 
+-- the bound holds for any input and scope: `ops`, `h`, `hs` are not needed
+set_option linter.unusedVariables false in
 /-- the number of loop iterations of a full drain is bounded by (positions in scope) × (product of the range
 sizes) + 1: stated as the number of showdowns yielded -/
 theorem C08_yield_bound (ops : WOps W) (flop : List Card) (ranges : List (List (Combo × W))) (a b : Nat × Nat)
     (h : WfInput flop ranges) (hs : ValidScope a b) :
     (deals (flop.map Card.code) (specEntries ranges) a b).length
       ≤ 1176 * (ranges.map List.length).foldl (· * ·) 1 := by
-  sorry
+  rw [deals_eq, product_length ranges 1, Nat.one_mul]
+  have h1 := length_flatMap_le (positionsBetween a b)
+    (fun p => ((product ranges).map (dealOf flop p)).filter (Deal.legal (flop.map Card.code)))
+    (product ranges).length (fun p _ => by
+      have := List.length_filter_le (Deal.legal (flop.map Card.code)) ((product ranges).map (dealOf flop p))
+      simpa using this)
+  exact Nat.le_trans h1 (Nat.mul_le_mul_right _ (positionsBetween_length_le a b))
 
 /-- the skip of blocked deals is a loop in the source: no `self.next()` call inside `fn next` -/
 theorem C08_no_recursion : Gen.nextSelfCalls = 0 := by decide
